@@ -51,7 +51,40 @@ fn plan_c30(seed: u64, tier: &str) -> Plan {
     let mut clients = vec![];
     let du = d / 1000;
     let mut longest = 0u64;
-    for key in 0..n_inst {
+    // burst style: one client writes all instances back to back, so that their periods run in phase and several
+    // instances become overdue in the same pass of the worker's deadline check (each must still be counted and signalled)
+    let burst = n_inst >= 2 && r.chance(0.4);
+    if burst {
+        // a slow node: timers may fire up to 2 ms late (well inside the oracle's 5 ms slack), so the worker finds
+        // more than one instance overdue when it wakes up
+        plan.time.timer_late_ns = *r.pick(&[0u64, 300_000, 2_000_000]);
+        let mut ops = vec![Op::Sleep { us: r.range(0, du / 2 + 100) }];
+        let n = if tier == "quick" { r.usize(1, 6) } else { r.usize(1, 12) };
+        let mut total = 0u64;
+        for _ in 0..n {
+            for key in 0..n_inst {
+                // (now and then one instance sits a round out: it then misses while the others do not)
+                if r.chance(0.15) {
+                    continue;
+                }
+                ops.push(Op::W { w: 0, k: WKind::Write, key, len: r.range(0, 16), x: uid as i32, name: String::new(), ts: None, h: H::None, uid: uid + 1000 * key as u32 });
+                uid += 1;
+            }
+            let gap = match r.below(6) {
+                0 => du / 2,
+                1 => du * 3 / 2,
+                2 => du * 32 / 10,
+                3 => du * 21 / 10,
+                4 => du + 1000,
+                _ => r.range(du / 10 + 1, du * 8 / 10),
+            };
+            total += gap;
+            ops.push(Op::Sleep { us: gap });
+        }
+        longest = total;
+        clients.push(script(ops));
+    }
+    for key in 0..(if burst { 0 } else { n_inst }) {
         let mut ops = vec![Op::Sleep { us: r.range(0, du / 2 + 100) }];
         let n = if tier == "quick" { r.usize(1, 8) } else { r.usize(1, 16) };
         let style = r.below(3);
